@@ -58,7 +58,15 @@ func genC11(seed uint64, tier string) *world.Scenario {
 	} else {
 		sc.Variant = "with-defects"
 	}
-	defect := func(p float64) bool { return !valid && r.Bool(p) }
+	// a tenth of the documents are documented forms with ONE defect: an id used twice (sensor, curve or fan;
+	// not necessarily by neighbouring entries): the only reason to reject them
+	dupOnly := ""
+	if dr := kernel.NewRand(seed, "c11.duponly"); dr.Bool(0.12) {
+		dupOnly = kernel.Pick(dr, "sensor", "curve", "curve", "fan")
+		sc.Variant = "one-defect:duplicate-" + dupOnly + "-id"
+	}
+	defect := func(p float64) bool { return !valid && dupOnly == "" && r.Bool(p) }
+	idr := kernel.NewRand(seed, "c11.ids")
 
 	// sensors
 	var sens []docEntry
@@ -76,7 +84,8 @@ func genC11(seed uint64, tier string) *world.Scenario {
 		}
 	}
 	for i := 0; i < ns; i++ {
-		e := docEntry{id: fmt.Sprintf("sen%d", i)}
+		// ids are not in alphabetical order in the document (a leading letter drawn per entry)
+		e := docEntry{id: fmt.Sprintf("%c_sen%d", 'a'+rune(idr.Intn(26)), i)}
 		e.backends = []string{sensorBackend(r.Intn(4))}
 		if defect(0.06) {
 			e.backends = nil
@@ -106,7 +115,7 @@ func genC11(seed uint64, tier string) *world.Scenario {
 	var curvs []docEntry
 	ids := make([]string, nc)
 	for i := range ids {
-		ids[i] = fmt.Sprintf("cur%d", i)
+		ids[i] = fmt.Sprintf("%c_cur%d", 'a'+rune(idr.Intn(26)), i)
 	}
 	ftypes := []string{"minimum", "maximum", "average", "delta", "sum", "difference"}
 	// a planted cycle of seeded length among function curves
@@ -236,7 +245,7 @@ func genC11(seed uint64, tier string) *world.Scenario {
 	}
 	used := map[int]bool{}
 	for i := 0; i < nf; i++ {
-		e := docEntry{id: fmt.Sprintf("fan%d", i)}
+		e := docEntry{id: fmt.Sprintf("%c_fan%d", 'a'+rune(idr.Intn(26)), i)}
 		k := r.Intn(4)
 		for used[k] {
 			k = (k + 1) % 4
@@ -328,6 +337,17 @@ func genC11(seed uint64, tier string) *world.Scenario {
 		e := docEntry{id: "curx", idLine: "id: curx"}
 		e.backends = []string{"    function:\n      type: " + kernel.Pick(r, ftypes...) + "\n      curves:\n        - " + strings.Join(members, "\n        - ")}
 		curvs = append(curvs, e)
+	}
+	// the one defect of a one-defect document: a second entry with an id that is already taken (a copy of
+	// an existing entry, so that nothing else about the document changes)
+	dupRand := kernel.NewRand(seed, "c11.dupentry")
+	switch dupOnly {
+	case "sensor":
+		sens = append(sens, sens[dupRand.Intn(len(sens))])
+	case "curve":
+		curvs = append(curvs, curvs[dupRand.Intn(len(curvs))])
+	case "fan":
+		fans = append(fans, fans[dupRand.Intn(len(fans))])
 	}
 	// the order of entries in the document is independent of who references whom:
 	// list the curves in a seeded order (forward references are legal)
@@ -496,6 +516,9 @@ func runC11(t *testing.T, sc *world.Scenario) *check.Result {
 	vsc := sc.Clone()
 	vsc.Horizon = sec(5)
 	co := runChild(&childSpec{Scenario: vsc, WorldDir: worldDir, OutDir: outDir, Args: []string{"config", "validate"}}, 60*time.Second)
+	if stuckViolation(res, "C11", co) {
+		return res
+	}
 	if co.Harness != "" {
 		res.Harness = co.Harness + "\n" + tailStr(co.Stderr, 1200)
 		return res
